@@ -184,6 +184,9 @@ func propC12(c *Check) {
 	c.Sites += len(w.ModuleFuncs())
 	c.Require(len(copies) == 0, "typefact", "crypto.nonce|never copied", "no instruction produces a nonce struct by value (the mutex and state are never copied)", strings.Join(copies, "; "))
 
+	if c.Tier == "thorough" {
+		c.vetCopylocks("./crypto/", "./kernel/")
+	}
 	// kernel side
 	if f := c.F("(*kernel.Chain).cosiRetrieveRandom"); f != nil {
 		var fromPool, fromUsed []ssa.Instruction
